@@ -675,7 +675,8 @@ class Runner(object):
                 elif not (arch1[x] == v):
                     self.violation('C07', 'archive-entry-changed',
                                    'archived key %s changed value during a call' % skey(x), keys=[x, k])
-        if cls == 'miss':
+        if cls == 'miss' and not sk.startswith('<unreprable'):
+            # (keys that cannot be printed share one printable form: not tracked by name)
             self.retr[sk] = result
         left = [x for x in (set(mem0) | {k}) if x not in mem1]
         if att0 and s1['att']:
@@ -798,6 +799,10 @@ class Runner(object):
                 self.note('c06_skipped_overfilled')
             elif not all(skey(x) in self.tracked for x in mem0):
                 self.note('c06_skipped_untracked')
+            elif any(skey(x).startswith('<unreprable') for x in list(mem0) + [k]):
+                # the shadow use-history is indexed by the printable form of a key; keys that cannot be printed
+                # (an argument whose repr() raises, kept as-is by a raw keymap) share one form and cannot be told apart
+                self.note('c06_skipped_unprintable_key')
             else:
                 self.note('c06_policy_checks')
                 self.flags.add('policy_judged')
